@@ -858,6 +858,42 @@ def class23_objects(cx, st, r, desc, P, O, thorough):
             if okc:
                 cx.judge(2, "dimension/conversion-to-other-dimension-accepted", text.split("%")[0].strip("(.' ") or "convert",
                          text % (src, other), lambda: f(other), key=[text, src, other], state=lambda: (deep(uv), deep(ua)))
+    # a sequence of items that each carry their own units: EVERY item is checked against the field's dimension, also an item
+    # that follows valid ones written in the same units system (in any position, alone among bare numbers or not)
+    for k in range(6 if thorough else 3):
+        dim = r.choice(DIMPOOL)
+        wd = wrong_dim(r, dim)
+        s_it, s_arr = gen.mild_sys(r), gen.mild_sys(r)
+        mk = lambda s3, d3: st.Units(st.UnitsSystem(**si.sys_dict(s3)), st.UnitsDimensions(*d3))
+        nit = r.randint(2, 5)
+        posb = r.randrange(1, nit)
+        good_items = [st.UnitValue(r.uniform(0.5, 9.0), mk(s_it, dim)) if (i < posb or r.random() < 0.6) else r.uniform(0.5, 9.0) for i in range(nit)]
+        bad_items = list(good_items)
+        bad_items[posb] = st.UnitValue(r.uniform(0.5, 9.0), mk(s_it, wd))
+        tgt = mk(s_arr, dim)
+        text = "UnitArray([%s], %r)" % (", ".join(str(x) for x in bad_items), str(tgt))
+        okc, _ = cx.twin(2, lambda: st.UnitArray(list(good_items), tgt), "UnitArray(items with their own units)")
+        if okc:
+            cx.judge(2, "dimension/conversion-to-other-dimension-accepted", "UnitArray(items)", text, lambda: st.UnitArray(list(bad_items), tgt),
+                     key=text)
+    ok4, _ = cx.twin(2, lambda: st.RDSystem(O["network"], O["space"], state=[st.UnitValue(1.0, "molecule")] * (S * n), units_system=system.units_system),
+                     "RDSystem(state=[UnitValue, ...])")
+    if ok4 and S * n >= 2:
+        qsys = gen.mild_sys(r)
+        mkq = lambda d3: st.Units(st.UnitsSystem(**si.sys_dict(qsys)), st.UnitsDimensions(*d3))
+        items = [st.UnitValue(1.0, mkq(Q_DIM)) for _ in range(S * n)]
+        items[r.randrange(1, S * n)] = st.UnitValue(3.0, mkq(wrong_dim(r, Q_DIM)))
+        text = "[%s]" % ", ".join(str(x) for x in items[:6])
+        cx.judge(2, W2, "RDSystem(state=)", "RDSystem(network, space, state=%s...)" % text,
+                 lambda: st.RDSystem(O["network"], O["space"], state=list(items), units_system=system.units_system), key=text)
+        cx.judge(2, W2, "RDSystem.state setter", "system.state = %s..." % text, lambda: setattr(system, "state", list(items)), key=text,
+                 state=lambda: deep(system))
+    if ok:
+        tsys = gen.mild_sys(r)
+        mkt = lambda d3: st.Units(st.UnitsSystem(**si.sys_dict(tsys)), st.UnitsDimensions(*d3))
+        items = [st.UnitValue(0.0, mkt(TIME_DIM)), st.UnitValue(1.0, mkt(TIME_DIM)), st.UnitValue(2.0, mkt(wrong_dim(r, TIME_DIM)))]
+        text = "[%s]" % ", ".join(str(x) for x in items)
+        cx.judge(2, W2, "RDScript(t_sample=)", "RDScript(..., t_sample=%s)" % text, lambda: st.RDScript(**dict(skw, t_sample=list(items))), key=text)
     # ---- class 3: UnitsSystem, units_system arguments and setters, unit strings ---
     good = gen.mild_sys(r)
     okU, _ = cx.twin(3, lambda: st.UnitsSystem(**si.sys_dict(good)), "UnitsSystem(valid)")
@@ -1025,6 +1061,15 @@ def class45_objects(cx, st, r, desc, P, O, thorough):
                      lambda: b_network(st, P, environments=mm), key=[m, form])
             cx.judge(5, what, "RDNetwork.environments setter", "network.environments = %r" % (mm,),
                      lambda: setattr(net, "environments", mm), key=[m, form, "set"], state=lambda: deep(net))
+    # names that are NOT the reserved one but close to it (a blank, a newline, another case): whatever the package does with them,
+    # the reserved name never ends up among the network's environments - either the list is refused, or the network holds
+    # the names as they were given
+    for near_ in pick([" default", "default ", "default\n", "\tdefault", "Default", "DEFAULT", "defaults"]):
+        i_ = r.randrange(len(envs) + 1)
+        m_ = envs[:i_] + [gen.fresh(near_)] + envs[i_:]
+        holds_names = lambda v_: [str(x) for x in v_.environments] == [str(x) for x in m_]
+        cx.judge(5, "environments/default-name-accepted", "RDNetwork(environments=)", "RDNetwork(species, reactions, environments=%r)" % (m_,),
+                 lambda: b_network(st, P, environments=list(m_)), key=[m_, "near"], ok_return=holds_names, near_miss_of_reserved_name=True)
     i = r.randrange(S)
     dup = [st.Species(**s["kw"]) for s in P["species"]] + [st.Species(**P["species"][i]["kw"])]
     cx.judge(5, "network/duplicate-species-label-accepted", "RDNetwork(species=)", "RDNetwork(species with label %r twice, ...)" % desc["species"][i]["label"],
